@@ -491,4 +491,5 @@ pub fn world_reach(w: &World, reach: &mut std::collections::BTreeMap<String, u64
     put("worlds_edge_oriented", w.edge_oriented);
     put("worlds_ksp", w.algorithm.get("k").is_some());
     put("worlds_combined_sinks", w.out2.is_some());
+    put("worlds_policies_at_run_level", w.policies_at_run_level);
 }
